@@ -34,6 +34,9 @@ CORE = "tf_pwa/amp/core.py"
 
 
 def run(repo, chk, tier):
+    from .c01_swap import check_swap_transpose
+
+    check_swap_transpose(repo, chk)
     chk.trusted_base[:] = ["AST->sympy translator sa/sym.py (tensor component model)", "sympy ring normaliser", "checker's Wigner reference (cross-checked against sympy)"]
     chk.info("not decided: the invariance of the density under a common rotation / boost / inversion / exchange itself (numerical); decided are necessary conditions of the three mechanisms the property names")
     nonneg(repo, chk)
